@@ -576,7 +576,8 @@ def refuse_gen(tier):
         n = 0
         for recv in REFUSE_RECV:
             for opt in REFUSE_OPS:
-                for x in VARY:
+                # ... and decimals that no integer can hold: the conversion fails after the type checks have passed
+                for x in list(VARY) + ["1e30", "-1e30", "9223372036854775808.0"]:
                     stmt = opt % (recv, x)
                     ops = [op_ctx(), op_run(REFUSE_SETUP), op_dump(0), op_run(stmt), op_dump(0)]
                     yield Case("rf%d" % n, ops, {"kind": "refuse", "stmt": stmt})
